@@ -198,7 +198,7 @@ check(
     'messages, collective consistency, send-buffer integrity and termination.',
     'The simulated MPI implements the weakest behaviour the standard allows as read from the standard; it is not validated against a real MPI '
     '(none installable). Ranks share one interpreter. Iteration estimator (Ibcast/Cancel) excluded as the property says. Known findings F13 '
-    '(sliver step at Tend differs between flavours) F14/F14b (forced stop on a later rank: deadlock / handled differently), F19 (collectives inside the iteration with restart_from_first_step need equal iteration counts) '
+    '(sliver step at Tend differs between flavours), F14/F14b (forced stop on a later rank: deadlock / handled differently), F19 (collectives inside the iteration with restart_from_first_step need equal iteration counts) '
     'and F20 (linearized estimate with avoid_restarts) are reported as KNOWN-FINDING, consequences of these roots are attributed to them; with the linearized estimate on several ranks '
     'step sizes are compared to 1e-6 (cancellation in the estimate), otherwise to 1e-9. '
     'numpy\'s global RNG is pinned identically on every rank (finding F11).',
